@@ -76,6 +76,7 @@ func genC18(r *rng, n int) {
 	avail, mask := c18Avail()
 	var items []c18Item
 	items = append(items, genC18J2T(r.fork(), n)...)
+	items = append(items, genC18Http(r.fork(), n)...)
 	items = append(items, genC18Skip(r.fork(), n)...)
 	items = append(items, genC18Itoa(r.fork(), n)...)
 	items = append(items, genC18Ftoa(r.fork(), n)...)
